@@ -184,7 +184,7 @@ theorem treeHash_len32 (t : Tree) : (TreeHash.treeHash t).length = 32 := by
   cases t <;> simp only [TreeHash.treeHash, sha256_len32]
 
 /-- `(sha256 1 X)` on an atom `X`: the tree hash of the atom -/
-theorem opSha256_atom (cfg : Cfg) (fl m : Nat) (b : Bytes) (t : Bool) (c : Ctr)
+theorem sha_opSha256_atom (cfg : Cfg) (fl m : Nat) (b : Bytes) (t : Bool) (c : Ctr)
     (hw : (Val.atom b t).wf = true)
     (hm : shaBase (newModel fl) + 2 * shaArg (newModel fl) + (1 + b.length) * shaByte (newModel fl) ≤ m)
     (hh : c.heap + 32 ≤ c.heapLimit) (ha : c.atoms < Gen.maxNumAtoms) :
@@ -220,7 +220,7 @@ theorem opSha256_atom (cfg : Cfg) (fl m : Nat) (b : Bytes) (t : Bool) (c : Ctr)
     omega
 
 /-- `(sha256 2 h₁ h₂)` on two 32-byte atoms -/
-theorem opSha256_pair (cfg : Cfg) (fl m : Nat) (h1 h2 : Bytes) (c : Ctr)
+theorem sha_opSha256_pair (cfg : Cfg) (fl m : Nat) (h1 h2 : Bytes) (c : Ctr)
     (hl1 : h1.length = 32) (hl2 : h2.length = 32)
     (hm : shaBase (newModel fl) + 3 * shaArg (newModel fl) + 65 * shaByte (newModel fl) ≤ m)
     (hh : c.heap + 32 ≤ c.heapLimit) (ha : c.atoms < Gen.maxNumAtoms) :
@@ -518,7 +518,7 @@ theorem body_le (X : Val) : X.wf = true → ∀ (vl el : Nat) (c0 : Ctr) (cost0 
         some (.ok (atomOpCost (newModel F) b.length, Val.mkAtom (TreeHash.treeHash (.atom b)),
           ((c0.bump 0 7 0).bump 0 1 0).bump 1 0 32)) := by
       rw [D_sha]
-      have := opSha256_atom cfg (normFlags F ||| 0) (mc - (cost0 + dispatchCost (newModel F) + 1 + 52 + 20))
+      have := sha_opSha256_atom cfg (normFlags F ||| 0) (mc - (cost0 + dispatchCost (newModel F) + 1 + 52 + 20))
         b t ((c0.bump 0 7 0).bump 0 1 0) hw
         (by rw [newModel_norm]; unfold atomOpCost at hc; omega)
         (by simp only [Ctr.bump]; omega) (by simp only [Ctr.bump]; omega)
@@ -575,7 +575,7 @@ theorem body_le (X : Val) : X.wf = true → ∀ (vl el : Nat) (c0 : Ctr) (cost0 
           ((c0.bump (nodes r.erase + nodes l.erase) (24 + pairsUsed r.erase + pairsUsed l.erase)
             (32 * nodes r.erase + 32 * nodes l.erase)).bump 0 1 0).bump 1 0 32)) := by
       rw [D_sha]
-      have := opSha256_pair cfg (normFlags F ||| 0)
+      have := sha_opSha256_pair cfg (normFlags F ||| 0)
         (mc - (K + 1 + 333 + 56 + bodyCost (newModel F) r.erase + 333 + 56 + bodyCost (newModel F) l.erase + 20))
         (TreeHash.treeHash l.erase) (TreeHash.treeHash r.erase)
         ((c0.bump (nodes r.erase + nodes l.erase) (24 + pairsUsed r.erase + pairsUsed l.erase)
